@@ -49,6 +49,7 @@ def _case(draw, unit):
     case = {'direction': direction, 'biort': b, 'qshift': q, 'J': J,
             'size': [draw(st.integers(2, 14)), draw(st.integers(2, 14))],
             'o_dim': o, 'ri_dim': ri, 'mode': draw(st.sampled_from(['symmetric', 'symmetric', 'zero'])),
+            'reused': draw(st.integers(0, 2)) == 0,
             'rx': draw(core.recipe_strategy()), 'rg': draw(core.recipe_strategy()),
             'k': draw(st.integers(0, 10**6))}
     if direction == 'forward':
@@ -130,8 +131,18 @@ def _forward(case, r, nondefault):
     skip, scl = case['skip'], case['scales']
     r.label('some_skipped' if any(skip) else None, 'some_scales' if any(scl) else None)
     r.nontrivial = nondefault or any(skip) or any(scl) or J >= 2
-    fwd = DTCWTForward(biort=case['biort'], qshift=case['qshift'], J=J, o_dim=case['o_dim'], ri_dim=case['ri_dim'],
-                       skip_hps=skip, include_scale=scl, mode=case.get('mode', 'symmetric'))
+    def mk(q_):
+        return DTCWTForward(biort=case['biort'], qshift=q_, J=J, o_dim=case['o_dim'], ri_dim=case['ri_dim'],
+                            skip_hps=skip, include_scale=scl, mode=case.get('mode', 'symmetric'))
+    twin = {'qshift_06': 'qshift_a', 'qshift_a': 'qshift_06'}.get(case['qshift'])
+    if case.get('reused') and twin:
+        r.label('reused_module')
+        fwd = mk(twin)
+        xw = torch.ones(1, 1, 8, 8, requires_grad=True)
+        sum(t.sum() for t in _outs(fwd(xw), skip, scl, case['o_dim'], case['ri_dim'])).backward()
+        fwd.load_state_dict(mk(case['qshift']).state_dict())
+    else:
+        fwd = mk(case['qshift'])
     n_in = H * W
     with torch.no_grad():
         A = _flat(_outs(core.libcall(fwd, torch.tensor(dwtu.basis([H, W])[:, None])), skip, scl, case['o_dim'], case['ri_dim'])).numpy()  # (n_in,total)
@@ -187,7 +198,19 @@ def _inverse(case, r, nondefault):
             'proper_grad_subset' if len(sub) < len(present) else None,
             'low_without_grad' if ('low' in present and 'low' not in sub) else None)
     r.nontrivial = nondefault or any(ab) or len(sub) < len(present) or J >= 2
-    inv = DTCWTInverse(biort=case['biort'], qshift=case['qshift'], o_dim=o, ri_dim=ri, mode=case.get('mode', 'symmetric'))
+    def mk(q_):
+        return DTCWTInverse(biort=case['biort'], qshift=q_, o_dim=o, ri_dim=ri, mode=case.get('mode', 'symmetric'))
+    twin = {'qshift_06': 'qshift_a', 'qshift_a': 'qshift_06'}.get(case['qshift'])
+    if case.get('reused') and twin:
+        r.label('reused_module')
+        inv = mk(twin)
+        lw = torch.ones(1, 1, 8, 8, requires_grad=True)
+        hw = [to_layout(torch.ones(1, 1, 6, 8, 8, 2), o, ri).requires_grad_(True),
+              to_layout(torch.ones(1, 1, 6, 4, 4, 2), o, ri).requires_grad_(True)]
+        inv((lw, hw)).sum().backward()
+        inv.load_state_dict(mk(case['qshift']).state_dict())
+    else:
+        inv = mk(case['qshift'])
     lo_shape, hs, _ = dtu.pyramid_shapes(H, W, J)
     shapes = {'low': tuple(lo_shape)}
     for j in range(J):
